@@ -164,6 +164,64 @@ Section Life.
     intros Hq Hg. cbn. unfold mem_fs_call. rewrite ms_remove_file. cbn [msec_sem]. rewrite Hq, Hg. reflexivity.
   Qed.
 
+  (** a top-level path: its parent is the root, which exists and is a directory *)
+  Lemma ensure_parent_root (s0 s1 : mstate) hs (n : name) :
+    wf s0 -> s0 !! whiteout_path top [] = None ->
+    run bhandler (ovl_ensure_has_parent top lower [n]) (S2 s0 s1 hs) = (S2 s0 s1 hs, Ok tt).
+  Proof.
+    intros [(r & Hr & Hrt) Hpc] Hroot.
+    unfold ovl_ensure_has_parent. cbn [removelast]. unfold bind_res at 1. rewrite run_bind.
+    unfold ovl_exists at 1. unfold bind_res at 1. rewrite run_bind, exists0, Hroot.
+    rewrite bool_decide_eq_false_2 by (intros [? ?]; discriminate).
+    rewrite run_bind. cbn [read_path run fst snd]. rewrite exists0, Hr.
+    rewrite bool_decide_eq_true_2 by eauto.
+    unfold bind_res at 1. rewrite run_bind. unfold ovl_metadata, bind_res at 1. rewrite run_bind. cbn [read_path run fst snd].
+    rewrite md0, Hr. cbn [mem_meta m_type]. rewrite Hrt.
+    unfold bind_res. rewrite run_bind. reflexivity.
+  Qed.
+
+  (** ** C09: creating over an entry that exists only in the lower layer fails as already existing,
+      and changes nothing *)
+  Theorem create_dir_over_lower_entry (s0 s1 : mstate) hs (n : name) f :
+    wf s0 -> s0 !! whiteout_path top [] = None -> s0 !! whiteout_path top [n] = None ->
+    s0 !! [n] = None -> s1 !! [n] = Some f ->
+    run bhandler (ovl_impl top lower (CCreateDir [n])) (S2 s0 s1 hs) =
+    (S2 s0 s1 hs, fail (match f_type f with File => EFileExists | Dir => EDirExists end)).
+  Proof.
+    intros Hwf Hroot Hm Hup Hlow.
+    cbn [ovl_impl]. unfold bind_res at 1. rewrite run_bind, (ensure_parent_root s0 s1 hs n Hwf Hroot).
+    unfold bind_res at 1. rewrite run_bind, (exists_rule hs lg ft s0 s1 [n] ltac:(discriminate)), Hm, Hup, Hlow.
+    repeat (rewrite bool_decide_eq_false_2 by (intros [? ?]; discriminate)).
+    rewrite bool_decide_eq_true_2 by eauto. cbn [negb andb orb].
+    unfold bind_res at 1. rewrite run_bind, (metadata_rule hs lg ft s0 s1 [n] ltac:(discriminate)), Hm, Hup, Hlow.
+    repeat (rewrite bool_decide_eq_false_2 by (intros [? ?]; discriminate)). reflexivity.
+  Qed.
+
+  (** ** C09: a directory that still has lower-layer children is not empty *)
+  Theorem remove_dir_with_lower_children (s0 s1 : mstate) hs (p : path) (c : name) :
+    parent_closed s0 -> p <> [] ->
+    s0 !! whiteout_path top p = None ->
+    (is_dir s0 p \/ (s0 !! p = None /\ is_dir s1 p)) ->
+    (s0 !! (whiteout_name :: p) = None \/ is_dir s0 (whiteout_name :: p)) ->
+    is_dir s1 p -> is_Some (s1 !! (p ++ [c])) -> s0 !! whiteout_path top (p ++ [c]) = None ->
+    run bhandler (ovl_impl top lower (CRemoveDir p)) (S2 s0 s1 hs) = (S2 s0 s1 hs, fail EOther).
+  Proof.
+    intros Hpc Hp Hwo Hserved Hwdir Hd1 Hc Hcm.
+    cbn [ovl_impl]. unfold bind_res at 1. rewrite run_bind, (read_path_rule hs lg ft s0 s1 p Hp).
+    rewrite bool_decide_eq_false_2 by (rewrite Hwo; intros [? ?]; discriminate).
+    assert (Hok : exists lp, (if bool_decide (is_Some (s0 !! p)) then Ok (v0, p)
+                              else if bool_decide (is_Some (s1 !! p)) then Ok (v1, p) else fail ENotFound) = Ok lp).
+    { destruct Hserved as [(f & Hf & _)|[Hn (f & Hf & _)]].
+      - rewrite bool_decide_eq_true_2 by eauto. eauto.
+      - rewrite bool_decide_eq_false_2 by (rewrite Hn; intros [? ?]; discriminate).
+        rewrite bool_decide_eq_true_2 by eauto. eauto. }
+    destruct Hok as (lp & ->).
+    destruct (read_dir_rule hs lg ft s0 s1 p Hpc Hp Hwo Hserved Hwdir) as (l & Hrun & Hl).
+    unfold bind_res at 1. rewrite run_bind, Hrun.
+    assert (Hin : c ∈ l) by (apply Hl; split; [right; auto|exact Hcm]).
+    destruct l as [|x l']; [inversion Hin|]. reflexivity.
+  Qed.
+
   Theorem recreate_clears_marker (s0 s1 : mstate) hs (n : name) g :
     wf s0 ->
     s0 !! whiteout_path top [] = None ->                       (* the root itself is not deleted *)
@@ -177,15 +235,7 @@ Section Life.
     destruct Hwf as [(r & Hr & Hrt) Hpc].
     cbn [ovl_impl]. unfold bind_res at 1. rewrite run_bind.
     (* the parent is the root: it exists and is a directory *)
-    assert (Hparent : run bhandler (ovl_ensure_has_parent top lower [n]) (S2 s0 s1 hs) = (S2 s0 s1 hs, Ok tt)).
-    { unfold ovl_ensure_has_parent. cbn [removelast]. unfold bind_res at 1. rewrite run_bind.
-      unfold ovl_exists at 1. unfold bind_res at 1. rewrite run_bind, exists0, Hroot.
-      rewrite bool_decide_eq_false_2 by (intros [? ?]; discriminate).
-      rewrite run_bind. cbn [read_path run fst snd]. rewrite exists0, Hr.
-      rewrite bool_decide_eq_true_2 by eauto.
-      unfold bind_res at 1. rewrite run_bind. unfold ovl_metadata, bind_res at 1. rewrite run_bind. cbn [read_path run fst snd].
-      rewrite md0, Hr. cbn [mem_meta m_type]. rewrite Hrt.
-      unfold bind_res. rewrite run_bind. reflexivity. }
+    pose proof (ensure_parent_root s0 s1 hs n (conj (ex_intro _ r (conj Hr Hrt)) Hpc) Hroot) as Hparent.
     rewrite Hparent.
     (* the target is deleted: it does not exist in the overlay *)
     unfold bind_res at 1. rewrite run_bind, (exists_rule hs lg ft s0 s1 [n] ltac:(discriminate)), Hm.
